@@ -107,15 +107,18 @@ def wide_terms():
 CHAIN = [1]     # number of TypeReference links per node (the type checker builds chains of references)
 
 
-def mk(ra, t):
+RAW = [False]   # nested ground types left as plain strings (the type checker writes ['Num'], {'a': 'Str'}; Unify wraps them itself)
+
+
+def mk(ra, t, nested=False):
   def R(x):
     r = ra.TypeReference(x)
     for _ in range(CHAIN[0] - 1): r = ra.TypeReference(r)
     return r
-  if isinstance(t, str): return R(t)
-  if t[0] == 'list': return R([mk(ra, t[1])])
+  if isinstance(t, str): return t if (RAW[0] and nested and t in ('Num', 'Str', 'Bool', 'Time')) else R(t)
+  if t[0] == 'list': return R([mk(ra, t[1], True)])
   cls = ra.OpenRecord if t[0] == 'open' else ra.ClosedRecord
-  return R(cls({f: mk(ra, u) for f, u in t[1]}))
+  return R(cls({f: mk(ra, u, True) for f, u in t[1]}))
 
 
 # ---- the model: meet of two terms (None = empty intersection) --------------------------------------------
@@ -192,7 +195,7 @@ def obs(ra, r):
 def check_pair(ra, a, b, bad):
   """One ordered pair. Returns number of oracle comparisons."""
   def v(kind, **kw):
-    bad.append(dict(sig=kind, what='%s: a=%r b=%r %s' % (kind, a, b, kw), case=dict(kind='pair', a=a, b=b)))
+    bad.append(dict(sig=kind, what='%s: a=%r b=%r %s' % (kind, a, b, kw), case=dict(kind='pair', a=a, b=b, raw=RAW[0])))
   x, y = mk(ra, a), mk(ra, b)
   try:
     ra.Unify(x, y)
@@ -409,6 +412,7 @@ def plan(ctx):
   nsh = 64 if ctx.thorough else 32
   tasks = [('pairs', ctx.thorough, i, nsh) for i in range(nsh)]
   tasks += [('pairs-chained', False, i, 32) for i in range(32)]     # the same depth-1 pairs with every reference a chain of two links
+  tasks += [('pairs-raw', False, i, 8) for i in range(8)]           # the same pairs with nested ground types written as plain strings; each shard is one long history in one process (a clash must not leak into later, fresh terms)
   ncore = 90 if ctx.thorough else 44
   tasks += [('triples', ncore, i, 32) for i in range(32)]
   if not ctx.thorough:
@@ -426,7 +430,8 @@ def work(task):
   kind, arg, i, nsh = task
   bad = []; stats = dict(); samples = []
   CHAIN[0] = 2 if kind == 'pairs-chained' else 1
-  if kind == 'pairs-chained': kind = 'pairs'
+  RAW[0] = kind == 'pairs-raw'
+  if kind in ('pairs-chained', 'pairs-raw'): kind = 'pairs'
   if kind == 'ops':
     CHAIN[0] = 1
     stats = dict(states=0, transitions=0, op_sequences_depth=arg)
@@ -531,6 +536,10 @@ def tup(x):
 def replay(ctx, case):
   ra = impl.M('type_inference.research.reference_algebra')
   bad = []
+  RAW[0] = bool(case.get('raw'))
+  if RAW[0]:    # raw-leaf cases are checked inside one long history: replay after one clash of raw ground types
+    try: ra.Unify(mk(ra, ('list', 'Num')), mk(ra, ('list', 'Str'))); ra.Unify(mk(ra, ('list', 'Bool')), mk(ra, ('list', 'Time')))
+    except Exception: pass
   if case['kind'] == 'pair': check_pair(ra, tup(case['a']), tup(case['b']), bad)
   elif case['kind'] == 'triple': check_triple(ra, tup(case['a']), tup(case['b']), tup(case['c']), bad)
   else: check_alias(ra, case['k'], case['r'], case['t'], case['u'], bad)
@@ -539,6 +548,6 @@ def replay(ctx, case):
 LEVEL_TEXT = ('Every ordered pair of type terms up to the tier bound (quick: all 352 depth-1 terms squared plus depth-2 terms against a 44-term core; '
               'thorough: all 3159 terms up to depth 3 squared, ~10M pairs), every triple over a core set in all six unification orders, and aliased '
               'records are run through the real reference_algebra.Unify and compared with a denotational meet; symmetry, idempotence, information '
-              'preservation and clash-iff-empty-intersection are checked on each. Explicit-state BFS over all sequences of <=2 (thorough 3) operations Unify / UnifyRecordField / UnifyListElement / CloseRecord on a pool of three references from 9 initial terms (729 pools): aliases stay equal, every operation equals its definition through Unify, repetition changes nothing. 111 wide terms (12-13 fields, nesting 4-5, reference chains of 3) squared. Exhaustive within the stated alphabet, so any single-case slip in Unify is found.')
+              'preservation and clash-iff-empty-intersection are checked on each. Explicit-state BFS over all sequences of <=2 (thorough 3) operations Unify / UnifyRecordField / UnifyListElement / CloseRecord on a pool of three references from 9 initial terms (729 pools): aliases stay equal, every operation equals its definition through Unify, repetition changes nothing. 111 wide terms (12-13 fields, nesting 4-5, reference chains of 3) squared. The depth-1 pairs are run a third time with nested ground types written as plain strings (as infer.py writes them), each shard as one long history in one process, so a clash that leaks into later fresh terms through shared state is seen. Exhaustive within the stated alphabet, so any single-case slip in Unify is found.')
 LEVEL_NOTE = ('Trusted: the 40-line structural meet in mc/checks/c16.py (the model). Bounded: nesting depth <=3, <=2 fields from {a,b,0}; '
               'nothing is asserted about unification after a clash has already occurred.')
